@@ -1,8 +1,10 @@
 package world
 
 import (
-	"sigs.k8s.io/controller-runtime/pkg/client"
+	"strings"
+
 	metav1 "k8s.io/apimachinery/pkg/apis/meta/v1"
+	"sigs.k8s.io/controller-runtime/pkg/client"
 	gatewayv1 "sigs.k8s.io/gateway-api/apis/v1"
 	gatewayv1alpha2 "sigs.k8s.io/gateway-api/apis/v1alpha2"
 )
@@ -182,7 +184,14 @@ func gatewayToK8s(o *Obj) client.Object {
 				}
 				tls.Mode = &mode
 				for _, c := range l.CertRefs {
-					tls.CertificateRefs = append(tls.CertificateRefs, gatewayv1.SecretObjectReference{Name: gatewayv1.ObjectName(c)})
+					ref := gatewayv1.SecretObjectReference{Name: gatewayv1.ObjectName(c)}
+					if i := strings.Index(c, "/"); i >= 0 {
+						// "ns/name": certificateRefs[].namespace
+						ns := gatewayv1.Namespace(c[:i])
+						ref.Namespace = &ns
+						ref.Name = gatewayv1.ObjectName(c[i+1:])
+					}
+					tls.CertificateRefs = append(tls.CertificateRefs, ref)
 				}
 				li.TLS = tls
 			}
